@@ -84,9 +84,15 @@ fn run_field<F: FieldLike>(ctx: &Ctx, rec: &mut Rec) {
             }
         }
         // zoo x zoo: thorough = every pair with a rotating subset of forms; quick = seeded sample
-        let stride = ctx.scale(7, 1);
-        let mut idx = rand_range(&mut rng, stride);
+        // (the zoo has grown to several thousand members: the number of pairs is budgeted, the stride is
+        // coprime to the zoo size so that every row and column is visited)
         let total = zoo.len() * zoo.len();
+        let mut stride = (total / ctx.scale(250_000, 4_000_000)).max(1);
+        let gcd = |mut a: usize, mut b: usize| { while b != 0 { let t = a % b; a = b; b = t; } a };
+        while gcd(stride, zoo.len()) != 1 {
+            stride += 1;
+        }
+        let mut idx = rand_range(&mut rng, stride);
         while idx < total {
             let (i, j) = (idx / zoo.len(), idx % zoo.len());
             if idx % n == w {
